@@ -13,7 +13,8 @@ non-blank characters are `//@`):
                          stopped looping)
       //@inv REGEX      <invariant/decreases lines inserted between the head of the loop whose head line
                          matches REGEX and its `{`>    ... //@endinv
-      //@at REGEX       <lines inserted before the first body line matching REGEX>  ... //@endat
+      //@at REGEX       <lines inserted before the first body line matching REGEX; `$1`..`$9` in them stand for the
+                         groups of REGEX (also for //@after)>  ... //@endat
       //@afteropen REGEX <lines inserted after the first line-ending `{` at or below the first body line matching
                          REGEX: the start of the block that the matched statement opens>  ... //@endafteropen
       //@blockend REGEX <lines inserted before the `}` closing the block that the first body line matching
@@ -32,6 +33,15 @@ warnings.filterwarnings('ignore', category=FutureWarning)   # character classes 
 
 from rsparse import Src, mask, match_close, expand_macro_rules, norm
 from rewrite import Rewriter, Unsupported
+
+
+def _groups(payload_line, match):
+    """`$1`..`$9` in a proof-hint line stand for the groups of its anchor's regular expression (e.g. the name the
+    source gives a loop variable), so that a renamed local does not lose the hint"""
+    def rep(m):
+        k = int(m.group(1))
+        return match.group(k) if k <= (match.re.groups or 0) and match.group(k) is not None else m.group(0)
+    return re.sub(r'\$(\d)', rep, payload_line)
 
 
 class AnchorLost(Exception):
@@ -705,10 +715,11 @@ class Unit:
             for lno, pl in pending_end.get(j, []):
                 self.emit(pl, ('tpl', rel_tpl, lno))
             for ai, (rx, payload) in enumerate(ats):
-                if ai not in used_at and re.search(rx, ln):
+                mt = re.search(rx, ln) if ai not in used_at else None
+                if mt:
                     used_at.add(ai)
                     for lno, pl in payload:
-                        self.emit(pl, ('tpl', rel_tpl, lno))
+                        self.emit(_groups(pl, mt), ('tpl', rel_tpl, lno))
             hit_inv = None
             for ii, (rx, payload) in enumerate(invs):
                 if ii not in used_inv and re.search(rx, ln):
@@ -731,10 +742,11 @@ class Unit:
             for lno, pl in pending_open.get(j, []):
                 self.emit(pl, ('tpl', rel_tpl, lno))
             for ai, (rx, payload) in enumerate(afters):
-                if ai not in used_after and re.search(rx, ln):
+                mt = re.search(rx, ln) if ai not in used_after else None
+                if mt:
                     used_after.add(ai)
                     for lno, pl in payload:
-                        self.emit(pl, ('tpl', rel_tpl, lno))
+                        self.emit(_groups(pl, mt), ('tpl', rel_tpl, lno))
         if len(used_after) != len(afters):
             raise AnchorLost('%s::%s: proof-hint anchor(s) not found: %s' % (rel, name, [afters[i][0] for i in range(len(afters)) if i not in used_after]))
         if len(used_inv | optional_invs) != len(invs) or len(used_at) != len(ats):
